@@ -93,10 +93,6 @@ func overlapsAny(rs []chunkRange, s, e uint64) bool {
 func (d *dec) parseHeaderV1(addr uint64) *header {
 	a := d.abs(addr)
 	what := "object header v1"
-	if addr%8 != 0 {
-		// version 1 object headers are 8-byte aligned in the file
-		d.fail("%s at 0x%x: address is not 8-byte aligned", what, a)
-	}
 	c := d.cursor(d.bytesAt(addr, 16, what), a, what)
 	ver := c.u8("version")
 	if ver != 1 {
@@ -202,15 +198,23 @@ func (d *dec) parseHeaderV2(addr uint64) *header {
 	}
 	size0 := c.uN(1<<(h.flags&3), "size of chunk #0")
 	prefix := uint64(c.pos)
-	full := d.bytesAt(addr, prefix+size0+4, what+" first chunk")
-	stored := le32(full[prefix+size0:])
-	if got := checksum(full[:prefix+size0]); got != stored {
-		zero := stored == 0
-		d.deviateOrFail("ohdr-v2-no-checksum", zero || d.tolerated("ohdr-v2-no-checksum"),
-			"%s at 0x%x: stored checksum 0x%08x, lookup3 over the %d header bytes is 0x%08x", what, a, stored, prefix+size0, got)
+	// checksum: lookup3 over everything before it. The pinned library writes no checksum field at all.
+	ckLen := uint64(4)
+	var full []byte
+	if a+prefix+size0+4 > uint64(len(d.d)) && a+prefix+size0 <= uint64(len(d.d)) {
+		ckLen = 0
+		full = d.bytesAt(addr, prefix+size0, what+" first chunk")
+		d.deviate("ohdr-v2-no-checksum", "%s at 0x%x: the file ends right after the %d header bytes, there is no checksum field", what, a, prefix+size0)
+	} else {
+		full = d.bytesAt(addr, prefix+size0+4, what+" first chunk")
+		stored := le32(full[prefix+size0:])
+		if got := checksum(full[:prefix+size0]); got != stored {
+			d.deviate("ohdr-v2-no-checksum", "%s at 0x%x: stored checksum 0x%08x, lookup3 over the %d header bytes is 0x%08x", what, a, stored, prefix+size0, got)
+			ckLen = 0 // the writer reserves no checksum field: the 4 bytes belong to whatever follows
+		}
 	}
-	d.addExtent(a, prefix+size0+4, "ohdr")
-	seen := []chunkRange{{a, a + prefix + size0 + 4}}
+	d.addExtent(a, prefix+size0+ckLen, "ohdr")
+	seen := []chunkRange{{a, a + prefix + size0 + ckLen}}
 	type chunk struct {
 		body []byte
 		org  uint64
@@ -265,8 +269,7 @@ func (d *dec) parseHeaderV2(addr uint64) *header {
 				}
 				st := le32(blk[ln-4:])
 				if got := checksum(blk[:ln-4]); got != st {
-					d.deviateOrFail("ohdr-v2-no-checksum", st == 0 || d.tolerated("ohdr-v2-no-checksum"),
-						"object header continuation block at 0x%x (header 0x%x): stored checksum 0x%08x, lookup3 over the %d block bytes is 0x%08x", s, a, st, ln-4, got)
+					d.fail("object header continuation block at 0x%x (header 0x%x): stored checksum 0x%08x, lookup3 over the %d block bytes is 0x%08x", s, a, st, ln-4, got)
 				}
 				d.addExtent(s, ln, "ohdr-cont")
 				chunks = append(chunks, chunk{blk[4 : ln-4], s + 4})
